@@ -85,6 +85,10 @@ def run_script(ctx, probe, path: Path, bufs, script, tag, alias: Path = None, pr
     if path.exists():
         path.unlink()
     cols = [Collection(path, UkvCollectionBackend, readonly=False, bufsize=b) for b in bufs]
+    if probe_inside:
+        # let the second process construct its collection object now (its constructor takes the write lock without a
+        # timeout): the in-session probes below then answer "timeout" instead of hanging
+        probe.ask("r", alias if alias is not None else path, timeout=8.0)
     expected = {}          # reference semantics of the property
     pending = {i: [] for i in range(len(cols))}   # pairs still queued in a collection object after a failed flush
     toks = []
@@ -101,11 +105,11 @@ def run_script(ctx, probe, path: Path, bufs, script, tag, alias: Path = None, pr
         if "in_body" in out:
             aw, ar = out["in_body"]
             ctx.count("in_session_probes")
-            if aw != "timeout":
+            if aw not in ("timeout", "hung"):
                 ctx.violation("C04:second-process-writes-during-session",
                               f"while a {kind} session was inside its body a second process (path alias) obtained the write lock ({aw[:20]})",
                               {"bufs": bufs, "script": tag, "at": si})
-            elif kind == "writing" and ar != "timeout":
+            elif kind == "writing" and ar not in ("timeout", "hung"):
                 ctx.violation("C04:second-process-reads-during-writing-session",
                               f"while a writing session was inside its body a second process (path alias) obtained a read lock ({ar[:20]})",
                               {"bufs": bufs, "script": tag, "at": si})
